@@ -17,18 +17,18 @@ open AgpTpf.C01 (WFInput inputFrags FragDisjoint foldlM_inv Mid)
     ids are below `n` (= `next_oid`) -/
 def CRes (input : List Scaffold) (N0 n : Nat) (err : Int) (o : OverlapResult) : Prop :=
   ∃ sc o0, sc ∈ input ∧ sc.name = o.bait.name ∧ findOverlaps sc.rows o.bait = .ok (some o0) ∧
-    KInv sc.rows (3 * err) o0.start o0.stop o.bait o ∧
+    KInv sc.rows (3 * err) o0.start o0.stop o.bait o ∧ SafeKept sc.rows err (3 * err) o ∧
     ∀ f, Row.frag f ∈ o.rows → f.oid < n ∧ (f.oid < N0 → f ∈ inputFrags input)
 
 theorem CRes.mono {input : List Scaffold} {N0 n n' : Nat} {err : Int} {o : OverlapResult} (h : CRes input N0 n err o)
     (hn : n ≤ n') : CRes input N0 n' err o := by
-  obtain ⟨sc, o0, h1, h2, h3, h4, h5⟩ := h
-  exact ⟨sc, o0, h1, h2, h3, h4, fun f hf => ⟨Nat.lt_of_lt_of_le (h5 f hf).1 hn, (h5 f hf).2⟩⟩
+  obtain ⟨sc, o0, h1, h2, h3, h4, hS, h5⟩ := h
+  exact ⟨sc, o0, h1, h2, h3, h4, hS, fun f hf => ⟨Nat.lt_of_lt_of_le (h5 f hf).1 hn, (h5 f hf).2⟩⟩
 
 theorem CRes.of_rres {input : List Scaffold} {N0 n : Nat} {err : Int} {o : OverlapResult}
     (hlt : ∀ f ∈ inputFrags input, f.oid < N0) (hn : N0 ≤ n) (h : RRes input err o) : CRes input N0 n err o := by
-  obtain ⟨sc, o0, h1, h2, h3, h4, h5⟩ := h
-  refine ⟨sc, o0, h1, h2, h3, h4, ?_⟩
+  obtain ⟨sc, o0, h1, h2, h3, h4, h5, hS⟩ := h
+  refine ⟨sc, o0, h1, h2, h3, h4, hS, ?_⟩
   intro f hf
   obtain ⟨A, B, hs, _⟩ := h5.slice
   have hin : f ∈ inputFrags input :=
@@ -38,8 +38,8 @@ theorem CRes.of_rres {input : List Scaffold} {N0 n : Nat} {err : Int} {o : Overl
 theorem CRes.congr {input : List Scaffold} {N0 n : Nat} {err : Int} {o o' : OverlapResult} (h : CRes input N0 n err o)
     (hr : o'.rows = o.rows) (hs : o'.start = o.start) (he : o'.stop = o.stop) (hb : o'.bait = o.bait) :
     CRes input N0 n err o' := by
-  obtain ⟨sc, o0, h1, h2, h3, h4, h5⟩ := h
-  refine ⟨sc, o0, h1, by rw [hb]; exact h2, by rw [hb]; exact h3, ?_, fun f hf => h5 f (hr ▸ hf)⟩
+  obtain ⟨sc, o0, h1, h2, h3, h4, hS, h5⟩ := h
+  refine ⟨sc, o0, h1, by rw [hb]; exact h2, by rw [hb]; exact h3, ?_, hS.congr hs he hb, fun f hf => h5 f (hr ▸ hf)⟩
   rw [hb]; exact h4.congr hr hs he hb
 
 /-- `trim_fragment(found.fragment, …)` as the pipeline calls it -/
@@ -47,7 +47,7 @@ theorem CRes.trimFragment {input : List Scaffold} {N0 n : Nat} {err : Int} {o o'
     {ks ke : Bool} (hwf : WFInput input) (hlt : ∀ g ∈ inputFrags input, g.oid < N0) (herr : 0 ≤ err) (hn : N0 ≤ n)
     (h : CRes input N0 n err o) (hf : f ∈ inputFrags input) (ht : o.trimFragment f ks ke n = .ok (o', new)) :
     CRes input N0 (n + 1) err o' := by
-  obtain ⟨sc, o0, h1, h2, h3, hK, hoids⟩ := h
+  obtain ⟨sc, o0, h1, h2, h3, hK, hS, hoids⟩ := h
   have hne : o.rows ≠ [] := by
     intro he; rw [C07.trimFragment_nil o f ks ke n he] at ht; cases ht
   obtain ⟨r0, t0, hr0⟩ : ∃ r0 t0, o.rows = r0 :: t0 := by
@@ -83,7 +83,8 @@ theorem CRes.trimFragment {input : List Scaffold} {N0 n : Nat} {err : Int} {o o'
       have e1 : r1 = .frag f := row_is r1 (by rw [hr1]; simp) hb
       exact ⟨t1, by rw [hr1, e1]⟩
   have hK' := kinv_trimFragment (M := 3 * err) (by omega) hK hrow hfresh ht
-  refine ⟨sc, o0, h1, by rw [hbait]; exact h2, by rw [hbait]; exact h3, by rw [hbait]; exact hK', ?_⟩
+  refine ⟨sc, o0, h1, by rw [hbait]; exact h2, by rw [hbait]; exact h3, by rw [hbait]; exact hK',
+    safeKept_trimFragment hS ht, ?_⟩
   intro g hg
   have hmem : Row.frag g ∈ o.rows ∨ Row.frag g = Row.frag new := by
     rcases C07.trimFragment_rows _ _ _ _ _ _ _ ht with e | e
@@ -191,7 +192,7 @@ theorem remapToInput_core (input ptx : List Scaffold) (prefix_ : Str) (joinGap :
     (hwf : WFInput input) (hnn : InputNonNeg input) (hdis : PtxDisjoint ptx) (herr : 0 ≤ err)
     (h : remapToInput input ptx prefix_ joinGap err = .ok b) :
     ∀ r ∈ b.store, ∃ sc o0, sc ∈ input ∧ sc.name = r.o.bait.name ∧ findOverlaps sc.rows r.o.bait = .ok (some o0) ∧
-      KInv sc.rows (3 * err) o0.start o0.stop r.o.bait r.o := by
+      KInv sc.rows (3 * err) o0.start o0.stop r.o.bait r.o ∧ SafeKept sc.rows err (3 * err) r.o := by
   obtain ⟨b1, b2, b3, h1, h2, h3, h4⟩ := C09.remapToInput_stages input ptx prefix_ joinGap err b h
   -- baits of the final store = baits of the pieces: pairwise disjoint
   obtain ⟨hview, _, _⟩ := C09.build_tags input ptx prefix_ joinGap err b h
@@ -243,7 +244,7 @@ theorem remapToInput_core (input ptx : List Scaffold) (prefix_ : Str) (joinGap :
   have : core4 r ∈ b3.store.map core4 := hc4 ▸ List.mem_map_of_mem hr
   obtain ⟨r3, hr3, e⟩ := List.mem_map.mp this
   simp only [core4, Prod.mk.injEq] at e
-  obtain ⟨sc, o0, q1, q2, q3, q4, _⟩ := (hKC3.store r3 hr3).congr e.2.1.symm e.2.2.1.symm e.2.2.2.symm e.1.symm
-  exact ⟨sc, o0, q1, q2, q3, q4⟩
+  obtain ⟨sc, o0, q1, q2, q3, q4, q5, _⟩ := (hKC3.store r3 hr3).congr e.2.1.symm e.2.2.1.symm e.2.2.2.symm e.1.symm
+  exact ⟨sc, o0, q1, q2, q3, q4, q5⟩
 
 end AgpTpf.C02
